@@ -109,7 +109,27 @@ type Engine struct {
 	// transient forwarder failure: the next command satisfying FailOnce is refused once
 	FailOnce func(Cmd) bool
 	failed   *Cmd // refused, not yet accepted on a retry
+	stall    chan struct{} // non-nil: the forwarder does not answer (ExecMgmtCmd blocks until released)
 	handlers map[uint64]ndn.InterestHandler
+}
+
+// Stall makes the forwarder unresponsive: every ExecMgmtCmd blocks until Release.
+func (e *Engine) Stall() {
+	e.mu.Lock()
+	defer e.mu.Unlock()
+	if e.stall == nil {
+		e.stall = make(chan struct{})
+	}
+}
+
+// Release ends a Stall.
+func (e *Engine) Release() {
+	e.mu.Lock()
+	defer e.mu.Unlock()
+	if e.stall != nil {
+		close(e.stall)
+		e.stall = nil
+	}
 }
 
 // ArmFailOnce sets (or clears) the predicate selecting the next command to refuse once.
@@ -199,6 +219,12 @@ func (e *Engine) ExecMgmtCmd(module string, cmd string, args any) error {
 	}
 	if a.Origin != nil {
 		c.Origin = *a.Origin
+	}
+	e.mu.Lock()
+	gate := e.stall
+	e.mu.Unlock()
+	if gate != nil {
+		<-gate
 	}
 	e.mu.Lock()
 	defer e.mu.Unlock()
@@ -377,6 +403,13 @@ func (s *Sim) StartPrefixSync(i int) {
 // PrefixSyncInterest delivers a Sync Interest of the prefix-table sync group carrying "router name is at
 // sequence number seq" to router i's SvSync (onSyncInterest -> onReceiveStateVector -> onPfxSyncUpdate).
 func (s *Sim) PrefixSyncInterest(i int, name enc.Name, seq uint64) {
+	s.PrefixSyncInterestNoSettle(i, name, seq)
+	s.Settle()
+}
+
+// PrefixSyncInterestNoSettle hands the Sync Interest to the SvSync handler and returns at once (several
+// Sync Interests can so be read back to back).
+func (s *Sim) PrefixSyncInterestNoSettle(i int, name enc.Name, seq uint64) {
 	nd := s.Nodes[i]
 	h := nd.Eng.Handler(nd.Cfg.PrefixTableSyncPrefix())
 	if h == nil {
@@ -395,7 +428,6 @@ func (s *Sim) PrefixSyncInterest(i int, name enc.Name, seq uint64) {
 		panic("harness: ReadInterest: " + err.Error())
 	}
 	h(ndn.InterestHandlerArgs{Interest: interest})
-	s.Settle()
 }
 
 // Settle lets every goroutine spawned by the routers finish and the management queues drain.
